@@ -40,7 +40,9 @@ def build_inputs(rng, tmp, nrec, with_reads=False):
                 tags.append("co:Z:free text ending in a blank ")     # valid Z value; the line then ends in a blank
             elif r < 0.12:
                 tags.append("tp:A:P ")                               # stray blank after the last field
-            lines.append(gen.walk_record(rng, g, w, "q%d" % k, tags=tags))
+            # a few read names with multi-byte UTF-8 characters: characters != bytes in the plain file
+            name = ("Zo\u00eb_q%d" if rng.random() < 0.02 else "q%d") % k
+            lines.append(gen.walk_record(rng, g, w, name, tags=tags))
     text = "".join(l + "\n" for l in lines)
     gtext = g.text()
     p = {"gaf": os.path.join(tmp, "a.gaf"), "gafz": os.path.join(tmp, "b.gaf.gz"), "gfa": os.path.join(tmp, "g.gfa"), "gfaz": os.path.join(tmp, "h.gfa.gz")}
